@@ -141,7 +141,8 @@ def run_thorough(prop, pc, units, seed):
 
     def _base_rc(u):
         try:
-            return json.load(open(os.path.join(VERIF, "baseline", u + ".json"))).get("residual_closures", {})
+            b = json.load(open(os.path.join(VERIF, "baseline", u + ".json")))
+            return b.get("residual_closures_max", b.get("residual_closures", {}))
         except Exception:
             return {}
 
@@ -149,10 +150,14 @@ def run_thorough(prop, pc, units, seed):
         """failures of a unit run that count: not a listed finding, not inside a function with new un-normalised closures"""
         brc = _base_rc(u)
         try:
-            bl = json.load(open(os.path.join(VERIF, "baseline", u + ".json"))).get("loops")
+            _b = json.load(open(os.path.join(VERIF, "baseline", u + ".json")))
+            bl = _b.get("loops")
+            bla = _b.get("loops_all")
         except Exception:
-            bl = None
+            bl = bla = None
         def _loops_changed(f):
+            if bla is not None and "nl" in f:
+                return f["nl"] not in bla.get(f["fn"], [0])
             return bl is not None and "nl" in f and f["nl"] != bl.get(f["fn"], 0)
         return [f for f in r["failures"] if not match_known(known0, prop, u, f, any_prop=True) and not (f.get("rc", 0) > brc.get(f["fn"], 0)) and not _loops_changed(f)]
     # mutants
@@ -351,14 +356,14 @@ def main(argv):
             # a closure that survived the normalisation is opaque to the verifier when it is handed to a std combinator: a failing
             # obligation in such a function is an unsupported construct (exit 2), unless the same function had closures when it was baselined
             rc = (f.get("fn_info") or {}).get("residual_closures", 0)
-            if rc > base.get("residual_closures", {}).get(f["fn"], 0):
+            if rc > base.get("residual_closures_max", base.get("residual_closures", {})).get(f["fn"], 0):
                 undecided.append(f"{u}: failing obligation in a function that now contains {rc} closure(s) the normaliser does not expand "
                                  f"(unsupported construct, not a verdict): {oid}")
                 continue
             # loop contracts are attached by loop ordinal: when the number of loops of the function differs from the baselined one (a loop
             # was added, removed or produced by a normalisation rule that did not fire before), the invariants may sit on the wrong loops
             nl = (f.get("fn_info") or {}).get("n_loops", 0)
-            if "loops" in base and nl != base["loops"].get(f["fn"], 0):
+            if ("loops_all" in base and nl not in base["loops_all"].get(f["fn"], [0])) or ("loops_all" not in base and "loops" in base and nl != base["loops"].get(f["fn"], 0)):
                 undecided.append(f"{u}: failing obligation in a function whose loop structure changed ({base['loops'].get(f['fn'], 0)} -> {nl} loops; "
                                  f"loop contracts are attached by ordinal - lost anchor, not a verdict): {oid}")
                 continue
